@@ -21,6 +21,9 @@ def main():
         elif a.prop == 'C13':
             from . import convcheck
             rc = convcheck.check_c13(a.tier, seed)
+        elif a.prop == 'C14':
+            from . import convcheck
+            rc = convcheck.check_c14(a.tier, seed)
         elif a.prop == 'C15':
             from . import convcheck
             rc = convcheck.check_c15(a.tier, seed)
